@@ -12,8 +12,8 @@
 //
 //	(1) all byte strings of length <= 2 and all byte strings of length 3
 //	    (quick: length 3 over a 64 byte boundary alphabet, thorough: all 256^3)
-//	(2) all strings of length <= 3 (thorough 4) over a 43 symbol token alphabet and
-//	    of length 4 (thorough 5) over its 24 symbol core
+//	(2) all strings of length <= 3 (thorough 4) over a 44 symbol token alphabet and
+//	    of length 4 (thorough 5) over its 25 symbol core
 //	    (brackets, quotes, # . .. ? : ; , = =~ - _ @ $ numbers, identifiers,
 //	    keywords, comment starts, newline, FF, NUL)
 //	(3) for 40 stdlib .ss files of <= 2 KB (every k-th in path order): every
@@ -211,6 +211,11 @@ const classFoldIntOp = "compile-fold-mod-shift-go-runtime-error"
 // (compile/constant.go) => index out of range.
 const classEmptyMemberName = "class-member-empty-name-index-out-of-range"
 
+// Precisely classified defect candidate: ast.RangeLen.Columns (compile/ast/
+// expr.go) dereferences From and Len without the nil checks that
+// RangeTo.Columns has; x[::], x[::n], x[i::] in a query where-expression.
+const classRangeLenNil = "query-rangelen-columns-nil-deref"
+
 var rxEmptyMemberName = regexp.MustCompile("\\{[^{]*(\"\"|''|``)\\s*:")
 
 func failClass(c *lib.Ctx, class string, cs any, format string, a ...any) {
@@ -239,6 +244,10 @@ func (r *runner) call(api, src string, f func()) {
 		if lib.IsRuntimeError(e) && strings.HasSuffix(kind, "runtime error: index out of range [0] with length 0") &&
 			rxEmptyMemberName.MatchString(src) {
 			class = classEmptyMemberName
+		}
+		if (api == "where" || api == "query") && lib.IsRuntimeError(e) && strings.Contains(src, "::") &&
+			strings.HasSuffix(kind, "invalid memory address or nil pointer dereference") {
+			class = classRangeLenNil
 		}
 		failClass(r.c, class, mkCase(api, src), "%s on input %q: %s", api, src, kind)
 		return
@@ -318,7 +327,7 @@ func dedupe(b []byte) []byte {
 }
 
 var tokenAlphabet = []string{
-	"(", ")", "[", "]", "{", "}", `"`, "'", "`", "#", ".", "..", "?", ":", ";", ",", "=", "=~",
+	"(", ")", "[", "]", "{", "}", `"`, "'", "`", "#", ".", "..", "?", ":", "::", ";", ",", "=", "=~",
 	"-", "_", "@", "$", "1", "1e", ".5e+", "0x", "x", "X",
 	"if ", "else ", "function ", "class ", "while ", "for ", "in ", "return ", "try ", "catch ",
 	"/*", "//", "\n", "\xff", "\x00",
@@ -326,7 +335,7 @@ var tokenAlphabet = []string{
 
 // core alphabet for the longest token strings
 var coreAlphabet = []string{
-	"(", ")", "[", "]", "{", "}", `"`, "'", "#", ".", "..", "?", ":", ";", ",", "=", "-",
+	"(", ")", "[", "]", "{", "}", `"`, "'", "#", ".", "..", "?", ":", "::", ";", ",", "=", "-",
 	"1", "x", "X", "function ", "class ", "in ", "\n",
 }
 
